@@ -5,6 +5,7 @@ import (
 	"fmt"
 	"regexp"
 	"strings"
+	"sync"
 
 	"github.com/influxdata/influxql"
 
@@ -187,8 +188,7 @@ func c11run(r *ev.Run) {
 	th := thorough(r)
 	na := len(c11atoms)
 	var rewritten, valid int64
-	mu := make(chan struct{}, 1)
-	mu <- struct{}{}
+	var mu sync.Mutex
 	run := func(c c11Case) {
 		fs, rw, ok := c11eval(c)
 		if !ok {
@@ -199,12 +199,12 @@ func c11run(r *ev.Run) {
 		if rw {
 			r.Trans(int64(len(c11strings[c.L])))
 		}
-		<-mu
+		mu.Lock()
 		valid++
 		if rw {
 			rewritten++
 		}
-		mu <- struct{}{}
+		mu.Unlock()
 		r.State(astx.HashString(fmt.Sprintf("%s|%v|%d", c.source(), c.Neg, c.Wrap)), rw)
 		r.Sample(n, func() interface{} {
 			return fmt.Sprintf("h %s /%s/ wrap=%d rewritten=%v", map[bool]string{false: "=~", true: "!~"}[c.Neg], c.source(), c.Wrap, rw)
